@@ -640,4 +640,44 @@ def r16_13(ctx):
     borrow(ctx, r13_1, "R13.1", "R16.13", " [the fits-on-one-line decision measures repr strings with cell_len: the per-character shortcut must agree with the width table, or a string with combining marks is expanded although its repr fits]")
 
 
-RULES = [r16_1, r16_2, r16_3, r16_4, r16_5, r16_6, r16_7, r16_8, r16_9, r16_10, r16_11, r16_12, r16_13]
+def r16_14(ctx):
+    ctx.rule("R16.14", "every position in the output has its own node: the parent writes the separator state (`last`) and the key (`key_repr`) onto the Node its recursive call returns, so each value the recursive walk returns must be a Node built in that very call - a node handed out twice (looked up in a table of nodes already built, or a module-level constant for the '...' back-reference) carries the key and separator of its LAST position at every position: [a, a] prints '[[1, 2][1, 2]]' and {'x': a, 'y': a} prints the key 'y' twice")
+    m = ctx.repo.mod("pretty")
+    tr = m.functions.get("traverse.<locals>._traverse") or m.functions.get("_traverse")
+    if tr is None:
+        raise AnchorVanished("pretty: the recursive walk _traverse was not found")
+    # the premise: results of the recursive call are written to
+    own = tr.qualname.split(".")[-1]
+    written = set()
+    for x in walk_local(tr.node):
+        if isinstance(x, ast.Assign):
+            for t in x.targets:
+                if isinstance(t, ast.Attribute) and t.attr in ("last", "key_repr", "is_tuple"):
+                    written.add(t.attr)
+    if not ({"last", "key_repr"} & written):
+        ctx.note("the walk no longer writes separator state onto child nodes; R16.14 is then vacuous")
+    defs = {}
+    for x in walk_local(tr.node):
+        if isinstance(x, (ast.Assign, ast.AnnAssign)) and x.value is not None:
+            for t in (x.targets if isinstance(x, ast.Assign) else [x.target]):
+                if isinstance(t, ast.Name):
+                    defs.setdefault(t.id, []).append(x.value)
+
+    def fresh(e, depth=0):
+        if isinstance(e, ast.Call) and norm(e.func) in ("Node", "_Node"):
+            return True
+        if isinstance(e, ast.IfExp):
+            return fresh(e.body, depth) and fresh(e.orelse, depth)
+        if isinstance(e, ast.Name) and e.id in defs and depth < 3:
+            return all(fresh(d, depth + 1) for d in defs[e.id])
+        return False
+    n = 0
+    for r in walk_local(tr.node):
+        if isinstance(r, ast.Return) and r.value is not None:
+            n += 1
+            ctx.check(fresh(r.value), tr.fq, short(r), f"{m.relpath}:{r.lineno}", "the returned node is built in this call",
+                      f"`{short(r)}` hands out a node that was not built in this call (a table of nodes / a shared constant): the caller writes `last` and `key_repr` onto it, so every other position that got the same node shows the separator and key of the last one - a container that occurs twice prints without the comma between its occurrences, and the output does not evaluate")
+    ctx.floor(n, 2, "returns of the recursive walk")
+
+
+RULES = [r16_1, r16_2, r16_3, r16_4, r16_5, r16_6, r16_7, r16_8, r16_9, r16_10, r16_11, r16_12, r16_13, r16_14]
